@@ -210,6 +210,79 @@ def run(db, chk):
     R4 = "TABLE-validators"
     chk.rule(R4, "validators reject names the path mapping cannot represent (constant inputs interpreted)")
     check_validators(db, chk, R4)
+    check_checkout_location(db, chk)
+
+
+def _calls_in(e, d=0):
+    if not isinstance(e, tuple) or d > 30:
+        return set()
+    out = set()
+    if e[0] == "call":
+        out.add((e[1] or "").split("::")[-1])
+        for a in e[2]:
+            out |= _calls_in(a, d + 1)
+        return out
+    for x in e[1:]:
+        if isinstance(x, tuple):
+            out |= _calls_in(x, d + 1)
+    return out
+
+
+def check_checkout_location(db, chk):
+    """"A tag always resolves to the exact (branch, version) it was created with": every checkout of a reference goes through
+    Dataset::checkout_by_ref(version, branch), where `branch = None` means MAIN -- not "where this handle happens to be".  The
+    directory whose manifests are read must therefore come from find_branch_location(name) for a named branch, from find_main()
+    for main, and may be the current location only when the requested branch was compared with the current one."""
+    R = "ARMS-checkout-location"
+    chk.rule(R, "checkout_by_ref: the location read is find_main() for branch None, find_branch_location(name) for Some(name); the "
+                "current location is used only under a comparison of the requested branch with manifest.branch")
+    f = db.one(r"^dataset::Dataset::checkout_by_ref$", file="lance/src/dataset.rs")
+    body = user_body(db, f, marker="resolve_latest_location")
+    chk.analysed(body)
+    c = body.cfg
+    res = calls(body, "resolve_latest_location") + calls(body, "resolve_version_location")
+    roots = set()
+    for b, t in res:
+        for a in t["args"]:
+            p = op_place(a)
+            while p is not None:
+                q = c.canon(p)
+                if any(isinstance(e, dict) and e.get("f") == "path" for e in q[1:]):
+                    roots.add(q[0])
+                    break
+                d = c.single_def(q[0])
+                if not d or d[0] != "assign":
+                    break
+                rv = d[3]["rv"]
+                p = rv.get("place") if rv["r"] == "ref" else (op_place(rv["op"]) if rv["r"] in ("use", "cast") else None)
+    if len(roots) != 1:
+        raise AnchorMissing("checkout_by_ref: the location whose .path is resolved was not found (%s)" % sorted(roots))
+    loc = roots.pop()
+    kinds = {}
+    for df in c.defs.get(loc, {"whole": []})["whole"]:
+        if df[1] not in c.reach0:
+            continue
+        names = {name_of(df[2]).split("::")[-1]} | set().union(*[_calls_in(expr_of(body, a)) for a in df[2]["args"]]) if df[0] == "call" else \
+            _calls_in(expr_of(body, df[3]["rv"]["op"])) if df[3]["rv"]["r"] == "use" else set()
+        kind = "main" if "find_main" in names else "named" if names & {"find_branch_location", "find_branch"} else \
+            "current" if "branch_location" in names else "?"
+        co = c.control_origins(df[1], transparent=lambda t_: False)
+        compared = False
+        for o in co:
+            if o[0] == "call" and (o[1] or "").endswith(("PartialEq::ne", "PartialEq::eq")):
+                t = c.blocks[o[2]]["term"]
+                oo = set()
+                for a in t["args"]:
+                    oo |= c.op_origins(a, transparent=lambda t_: True)
+                compared = compared or (("field", "branch") in oo and any(x[0] in ("upvar", "arg") for x in oo))
+        kinds.setdefault(kind, []).append((df[1], compared))
+    chk.ob(R, "main-from-find_main", "main" in kinds, "a definition of the checkout location comes from find_main() (kinds found: %s)" % sorted(kinds), body.loc())
+    chk.ob(R, "named-from-find_branch", "named" in kinds, "a definition of the checkout location comes from find_branch_location(name)", body.loc())
+    chk.ob(R, "no-unclassified-source", "?" not in kinds, "every definition of the checkout location is one of main / named / current", body.loc())
+    cur = kinds.get("current", [])
+    chk.ob(R, "current-only-when-compared", all(cmp_ for _, cmp_ in cur),
+           "the current location is used %d time(s), each under a comparison of the requested branch with manifest.branch: %s" % (
+               len(cur), [cmp_ for _, cmp_ in cur]), body.loc())
 
 
 def check_validators(db, chk, R):
